@@ -302,6 +302,11 @@ func TestC32(t *testing.T) {
 		}
 	}
 	if env.Replay != "" {
+		var cc remapClusterCase
+		if err := vkit.ReadReplay(env.Replay, &cc); err == nil && cc.Topology != nil {
+			c32Cluster(t, env, rec, &cc)
+			return
+		}
 		var c remapCase
 		if err := vkit.ReadReplay(env.Replay, &c); err != nil {
 			t.Fatal(err)
@@ -309,6 +314,7 @@ func TestC32(t *testing.T) {
 		eval(&c)
 		return
 	}
+	defer c32Cluster(t, env, rec, nil) // part (b): cluster level, after the plugin-level block
 	r := env.Rand("c32")
 	n := env.Pick(4000, 60000) / env.NBatch
 	for i := 0; i < n; i++ {
